@@ -292,7 +292,7 @@ func (cw *c07World) judge(c *Ctx, batchIDs map[int]string, expected map[string]m
 }
 
 func checkC07(c *Ctx) {
-	c.Rule = "bounded progress: for n=3,t=2 and two batches, ALL causally feasible board orders of the primary messages (proposals, answers; every choice of the answering set with >= t members per batch; answers may trail into and beyond the next batch) are played with eager polling on one world rewound by snapshots; reconstruction broadcasts follow from the nodes themselves. Seeded sampling beyond: (n,t) in {(2,2),(3,3),(4,2),(4,3),(5,3)}, three batches, random orders, lazy polling with random splits, random slow sets. At quiescence every node must be signing-idle and store a prysm-valid signature for every message of every batch that received >= t answers. Further families: two rounds on the same nodes; proposer clocks minutes/hours ahead of or behind the answerers'; ordinary batches after a proposal over an empty baked range. distinct = distinct board orders played"
+	c.Rule = "bounded progress: for n=3,t=2 and two batches, ALL causally feasible board orders of the primary messages (proposals, answers; every choice of the answering set with >= t members per batch; answers may trail into and beyond the next batch) are played with eager polling on one world rewound by snapshots; reconstruction broadcasts follow from the nodes themselves. Seeded sampling beyond: (n,t) in {(2,2),(3,3),(4,2),(4,3),(5,3)}, three batches, random orders, lazy polling with random splits, random slow sets. At quiescence every node must be signing-idle and store a prysm-valid signature for every message of every batch that received >= t answers. Further families: two rounds on the same nodes; proposer clocks minutes/hours ahead of or behind the answerers'; ordinary batches after a proposal over an empty baked range. Identifiers of an earlier batch used again (same baked window twice; per-batch numbering). distinct = distinct board orders played"
 	c.Assumptions = []string{"participants are slow, not wrong (no junk shares)", "MemState; cold machines are stateless for signing"}
 	// exhaustive part
 	sets := sched.Subsets(3, 2)
@@ -436,6 +436,7 @@ func checkC07(c *Ctx) {
 	c07TwoRounds(c)
 	c07SkewedClocks(c)
 	c07DegenerateProposals(c)
+	c07SameIdsAgain(c)
 	// sampled part
 	cfgs := []ntCase{{2, 2}, {3, 3}, {4, 2}, {4, 3}, {5, 3}}
 	per := c.Pick(12, 400)
@@ -746,6 +747,77 @@ func c07DegenerateProposals(c *Ctx) {
 					}
 					if !valid {
 						c.Violate("C07/batch-with-t-answers-not-reconstructed", fmt.Sprintf("%s holds no valid signature for the batch that followed an empty-range proposal (%d answers, t=%d)", nd.Name, len(set), t), wit)
+						return
+					}
+				}
+			}
+		}
+	})
+}
+
+// c07SameIdsAgain: message identifiers are only unique within a batch - a baked window signed a second
+// time (the identifier is the validator index), or a proposer who numbers his documents per batch. The
+// later batch, answered by t participants, must end with a valid signature for every one of its messages
+// on every node, like the first one.
+func c07SameIdsAgain(c *Ctx) {
+	reps := c.Pick(2, 8)
+	Parallel(reps, 4, func(rep int) {
+		seed := c.Seed*197 + uint64(rep)
+		r := sched.Derive(seed, 80)
+		n, t := 3, 2+rep%2
+		ce, err := NewCeremonyVia(seed, n, t, world.RandomPolicy, rep%2 == 1)
+		if err != nil || !ce.AllIn(StIdle) {
+			c.Inconclusive("same-ids world: %v", err)
+			return
+		}
+		defer ce.Close()
+		w := ce.W
+		key, _, err := ce.GroupKeyFromMachines()
+		if err != nil {
+			c.Inconclusive("same-ids world: %v", err)
+			return
+		}
+		lo := r.Intn(18000)
+		for bi := 0; bi < 4; bi++ {
+			p := r.Intn(n)
+			subsets := sched.Subsets(n, t)
+			set := subsets[r.Intn(len(subsets))]
+			spec := BatchSpec{Proposer: p, Signers: set, NoLate: r.Intn(2) == 0}
+			kind := "baked window again"
+			if bi < 2 {
+				spec.Range = &world.Range{Start: lo, End: lo + 3}
+			} else {
+				kind = "per-batch numbering with other payloads"
+				req := requests.SigningBatchProposalStartRequest{BatchID: fmt.Sprintf("numbered-%d-%d", rep, bi), ParticipantId: p, CreatedAt: now(),
+					SigningTasks: []requests.SigningTask{{MessageID: "1", File: "doc-1", Payload: r.Bytes(14)}, {MessageID: "2", File: "doc-2", Payload: r.Bytes(14)}}}
+				msg := world.SignMsg(w.Nodes[p], ce.Round, EvSigningStart, mkReq(req), "")
+				spec.Hand = &msg
+			}
+			wit := map[string]interface{}{"family": "identifiers of an earlier batch used again", "n": n, "t": t, "batch": bi, "kind": kind, "prompt_signers": set, "case_seed": seed}
+			prop, err := ce.RunBatch(spec, world.RandomPolicy)
+			c.Eval(1)
+			c.Add("batches_reusing_identifiers_of_an_earlier_batch", bi%2)
+			c.Distinct(fmt.Sprintf("same-ids|t%d|%d", t, bi))
+			if err != nil || prop == nil {
+				c.Violate("C07/schedule-cannot-proceed", fmt.Sprintf("batch %d (%s): %v", bi, kind, err), wit)
+				return
+			}
+			bid, msgs, _ := ExpandProposal(prop.Data)
+			for _, nd := range w.Nodes {
+				if st := NodeState(nd, ce.Round); st != StIdle {
+					c.Violate("C07/node-not-idle-at-quiescence", fmt.Sprintf("%s ends in %s after batch %d (%s)", nd.Name, st, bi, kind), wit)
+					return
+				}
+				store := SigStore(nd, ce.Round)
+				for _, m := range msgs {
+					valid := false
+					for _, e := range store[bid][m.ID] {
+						if ok, _ := oracle.VerifyG2(key, m.Payload, e.Signature); ok && len(e.Signature) > 0 {
+							valid = true
+						}
+					}
+					if !valid {
+						c.Violate("C07/batch-with-t-answers-not-reconstructed", fmt.Sprintf("%s holds no valid signature for message %q of batch %d (%s; %d answers, t=%d)", nd.Name, m.ID, bi, kind, len(set), t), wit)
 						return
 					}
 				}
